@@ -25,9 +25,12 @@ FProj(f) == [i \in DOMAIN f |-> [t |-> f[i].t, ns |-> IF f[i].t = "I" THEN f[i].
 TInit ==
     /\ tid \in 1..Len(Traces)
     /\ l = 1
-    /\ ep = [e \in E |-> IF e = "A"
-                THEN EpInit(C.rwA, C.rwB, C.smiuA, C.rmiuA, C.lmiuA, C.agfA)
-                ELSE EpInit(C.rwB, C.rwA, C.smiuB, C.rmiuB, C.lmiuB, C.agfB)]
+    /\ ep = [e \in E |-> LET r == IF e = "A"
+                              THEN EpInit(C.rwA, C.rwB, C.smiuA, C.rmiuA, C.lmiuA, C.agfA)
+                              ELSE EpInit(C.rwB, C.rwA, C.smiuB, C.rmiuB, C.lmiuB, C.agfB)
+                        \* "v0": the conversation starts as if v0 messages had been exchanged and acknowledged both ways
+                        v == IF "v0" \in DOMAIN C THEN C.v0 ELSE 0
+                    IN  [r EXCEPT !.vs = v, !.vsa = v, !.vr = v, !.vra = v]]
     /\ wire = [e \in E |-> <<>>]
     /\ accepted = [e \in E |-> <<>>]
     /\ delivered = [e \in E |-> <<>>]
